@@ -401,23 +401,25 @@ Definition caller_eqb (a b : caller) : bool :=
   end.
 
 (* ---- correspondence cases (generated by harness/props/c14.py) ---------------------------------------- *)
-(* one run of the reply path: socket kind, the reply stream, the sizes it was delivered in, what the caller
-   saw and how many bytes were left unread in the socket *)
-Record run := { r_varz : bool; r_stream : bytes; r_sizes : list Z; r_caller : caller; r_left : Z }.
+(* one run of the reply path: the sizes the reply stream was delivered in, what the caller saw and how many
+   bytes were left unread in the socket *)
+Record run := { r_sizes : list Z; r_caller : caller; r_left : Z }.
 
 Inductive case :=
 | CRpc (svc : service) (name : bytes) (has_result : bool) (args : list (Z * tval))
        (sent : option bytes)            (* bytes written to the socket; None: the serializer raised *)
-       (runs : list run)
+       (varz : bool)                    (* socket class under the transport sink *)
+       (stream : bytes)                 (* what the peer sends back (reply frame and whatever follows it) *)
+       (runs : list run)                (* the same call repeated under different deliveries of [stream] *)
 | CTimeout (observed : caller).         (* a call whose deadline has passed *)
 
-Definition check_run (svc : service) (r : run) : bool :=
-  let '(c, unread) := reply_result svc (r_varz r) (chunks_of (r_sizes r) (r_stream r)) in
+Definition check_run (svc : service) (varz : bool) (stream : bytes) (r : run) : bool :=
+  let '(c, unread) := reply_result svc varz (chunks_of (r_sizes r) stream) in
   caller_eqb c (r_caller r) && (unread =? r_left r).
 
 Definition check_case (c : case) : bool :=
   match c with
-  | CRpc svc name has_result args sent runs =>
+  | CRpc svc name has_result args sent varz stream runs =>
       option_eqb bytes_eqb (enc_call name has_result args) sent
       && match sent with
          | Some f =>                    (* the model's own decoder reads the frame back (instance of C14_roundtrip) *)
@@ -429,15 +431,15 @@ Definition check_case (c : case) : bool :=
              end
          | None => true
          end
-      && forallb (check_run svc) runs
+      && forallb (check_run svc varz stream) runs
   | CTimeout observed => caller_eqb (wrap_exn XTimeout) observed
   end.
 
 (* what the model computes, for the replay file *)
 Definition explain_case (c : case) : option bytes * list (caller * Z) :=
   match c with
-  | CRpc svc name has_result args _ runs =>
+  | CRpc svc name has_result args _ varz stream runs =>
       (enc_call name has_result args,
-       map (fun r => reply_result svc (r_varz r) (chunks_of (r_sizes r) (r_stream r))) runs)
+       map (fun r => reply_result svc varz (chunks_of (r_sizes r) stream)) runs)
   | CTimeout _ => (None, [(wrap_exn XTimeout, 0)])
   end.
